@@ -253,7 +253,7 @@ package internal
 //@   ghost sawErr bool = false
 //@   at call Results 1 ghost sawErr = false
 //@   at call isError 1 ghost sawErr = sawErr || ret
-//@   at call AssignableTo 1 pre assert [C11,C14] each-fallback-value-is-checked-against-the-output-at-its-position: arg1 == t.Outputs[idx3] && 0 <= idx3 && idx3 < len(t.Outputs)
+//@   at call AssignableTo 1 pre assert [C11,C14,C13] each-fallback-value-is-checked-against-the-output-at-its-position: arg1 == t.Outputs[idx3] && 0 <= idx3 && idx3 < len(t.Outputs)
 //@   at call AssignableTo 1 ghost na = !ret
 //@   at call errf 4 ghost na = false
 //@   at store FallbackWith 1 assert [C11,C14] fallback-recorded-only-for-a-task-that-returns-an-error: sawErr
@@ -261,7 +261,7 @@ package internal
 //@   ensures [C11,C14] recorded-fallback-has-one-value-per-output: implies(t.FallbackWith, len(t.FallbackWithResults) == len(t.Outputs))
 //@   loop 1 invariant [C01,C11] predicate-function-is-a-new-object: $PREDFRESH && $MONO && !na && implies(t.FallbackWith, len(t.FallbackWithResults) == len(t.Outputs))
 //@   loop 2 invariant [C11,C14] error-result-seen-so-far: 0 <= i && $MONO && hasError == sawErr
-//@   loop 3 invariant [C11,C14] an-unassignable-fallback-value-was-reported: $MONO && !na && 0 <= idx3 && len(errResults) == len(t.Outputs)
+//@   loop 3 invariant [C11,C14,C13] an-unassignable-fallback-value-was-reported: $MONO && !na && 0 <= idx3 && len(errResults) == len(t.Outputs)
 //@   ensures [C14] no-diagnostic-removed: $MONO
 //@   ensures [C01,C11] predicate-function-is-a-new-object: $PREDFRESH
 //@   at call compilePredicate 1 pre assume typeChecked-predicate-arity: len(arg3.Args) == 1
